@@ -261,47 +261,48 @@ From NV.C19 Require Import GenModel GenProofs PcaModel.
      From NV.C19 Require Import GenModel GenProofs PcaModel.
    (Properties.v does `Close Scope Q_scope`; Q statements below carry explicit %Q.) *)
 
-(* (G1) slice_generator with ONE or TWO axes (all lengths): below nmax the code's `int(n / div % mod)`
-   indices are the documented mixed-radix digits (first axis fastest), the generated index
+(* (G1) slice_generator over ANY number of axes and any axis lengths (code after 5c1bfaa):
+   at EVERY step n the indices `(n // div) % alen` are the documented mixed-radix digits
+   (n / prod(lens[:j])) mod lens[j] - first axis fastest; over n < nmax the index
    combinations are pairwise distinct and are exactly the in-range combinations. *)
 Theorem slice_generator_bijective : forall lens : list nat,
-  length lens = 1 \/ length lens = 2 ->
   let idxs := map (sg_xs lens) (seq 0 (seq_prod lens)) in
-  (forall n, n < seq_prod lens -> sg_xs lens n = doc_index lens n) /\
+  (forall n, sg_xs lens n = doc_index lens n) /\
   NoDup idxs /\
   (forall t, In t idxs <-> Forall2 lt t lens).
 Proof. exact slice_generator_bijective_proof. Qed.
 Print Assumptions slice_generator_bijective.
 
-(* (G2) ... and every assembled index tuple is accepted (no IndexError), all nmax items are yielded *)
-Theorem slice_generator_no_error_one_or_two_axes : forall (shape : list nat) (flat : list Z) (axes : list nat),
-  length axes = 1 \/ length axes = 2 ->
-  Forall (fun a => a < length shape) axes ->
+(* (G2) ... and, for any list of axes, every assembled index tuple is accepted (no IndexError)
+   and all nmax items are yielded *)
+Theorem slice_generator_no_error : forall (shape : list nat) (flat : list Z) (axes : list nat),
   snd (take_ok shape flat (sg_tuples shape axes)) = false /\
   map fst (fst (take_ok shape flat (sg_tuples shape axes))) = sg_tuples shape axes.
 Proof. exact slice_generator_no_error_proof. Qed.
-Print Assumptions slice_generator_no_error_one_or_two_axes.
+Print Assumptions slice_generator_no_error.
 
-(* (G3) FINDING: three axes - the modulus is the cumulative product, so a middle axis gets an
-   out-of-range index: lens [2;2;3], n = 4 gives x = 2 for an axis of length 2 (IndexError). *)
-Theorem slice_generator_three_axes_refuted :
-  exists (lens : list nat) (n j : nat),
-    length lens = 3 /\ n < seq_prod lens /\ j < 3 /\
-    nth j lens 0 <= nth j (sg_xs lens n) 0 /\
-    nth j (sg_xs lens n) 0 <> doc_digit lens j n /\
-    sg_list [2; 2; 3] (map Z.of_nat (seq 0 12)) [0; 1; 2]%Z
-    = ([([0; 0; 0], [0]); ([1; 0; 0], [6]); ([0; 1; 0], [3]); ([1; 1; 0], [9])]%Z, true).
-Proof. exact slice_generator_three_axes_refuted_proof. Qed.
-Print Assumptions slice_generator_three_axes_refuted.
+(* (G3) int axis (code after 8bf3127): for every valid axis k the negative spelling k - ndim
+   runs exactly the computation of k; no IndexError; the yielded index tuples are
+   (slice(None),)*k + (j,) for j in range(shape[k]), in order. *)
+Theorem slice_generator_int_axis : forall (shape : list nat) (flat : list Z) (k : nat),
+  k < length shape ->
+  let r := sg_int shape flat (Z.of_nat k) in
+  sg_int shape flat (Z.of_nat k - Z.of_nat (length shape)) = r /\
+  snd r = false /\
+  map fst (fst r) = map (fun j => (repeat whole k ++ [Z.of_nat j])%list) (seq 0 (nth k shape 0)).
+Proof. exact slice_generator_int_axis_proof. Qed.
+Print Assumptions slice_generator_int_axis.
 
-(* (G4) FINDING: int branch with a negative axis: (slice(None),)*axis is empty, axis 0 is sliced
-   with the extent of the requested axis: shape (1,2), axis=-1 yields data[0] then IndexError. *)
-Theorem slice_generator_negative_int_axis_refuted :
-  exists (shape : list nat) (axis : Z), (axis < 0)%Z /\ norm_axis (length shape) axis = Some 1 /\
-    sg_int shape (map Z.of_nat (seq 0 2)) axis = ([([0], [0; 1])]%Z, true) /\
-    sg_int shape (map Z.of_nat (seq 0 2)) 1%Z = ([([whole; 0], [0]); ([whole; 1], [1])]%Z, false).
-Proof. exact slice_generator_negative_int_axis_refuted_proof. Qed.
-Print Assumptions slice_generator_negative_int_axis_refuted.
+(* the two inputs of the repaired defects (known_findings: fixed) now run to completion *)
+Example slice_generator_three_axes_fixed :
+  sg_list [2; 2; 3] (map Z.of_nat (seq 0 12)) [0; 1; 2]%Z
+  = ([([0; 0; 0], [0]); ([1; 0; 0], [6]); ([0; 1; 0], [3]); ([1; 1; 0], [9]);
+      ([0; 0; 1], [1]); ([1; 0; 1], [7]); ([0; 1; 1], [4]); ([1; 1; 1], [10]);
+      ([0; 0; 2], [2]); ([1; 0; 2], [8]); ([0; 1; 2], [5]); ([1; 1; 2], [11])]%Z, false).
+Proof. vm_compute. reflexivity. Qed.
+Example slice_generator_negative_int_axis_fixed :
+  sg_int [1; 2] (map Z.of_nat (seq 0 2)) (-1)%Z = ([([whole; 0], [0]); ([whole; 1], [1])]%Z, false).
+Proof. vm_compute. reflexivity. Qed.
 
 (* (G5) parcels(data): one mask per distinct value, none empty, every position in exactly one mask *)
 Theorem parcels_partition : forall data : list Z,
@@ -355,3 +356,65 @@ Example pca_mask_nonvacuous :
     [[(true, fun i => Z.of_nat (i + 1)); (false, fun i => 7%Z)]; [(true, fun i => Z.of_nat (2 * i + 1))]] 0 1 = 5%Z
   /\ length (extracted Z [[(true, fun i => Z.of_nat (i + 1)); (false, fun i => 7%Z)]; [(true, fun i => Z.of_nat (2 * i + 1))]]) = 2.
 Proof. vm_compute. split; reflexivity. Qed.
+
+(* ====================================================================== *)
+(* additions: largest_cc selection, series_from_mask order, PCA axis rolls *)
+(* ====================================================================== *)
+From NV.C19 Require Import MaskSpec.
+
+(* (14) largest_cc, given the labelling (scipy.ndimage.label is an oracle): no label ->
+   ValueError; one label -> the mask itself; otherwise the voxels of ONE label L >= 1 that
+   occurs, whose component is at least as large as every other and strictly larger than
+   every component with a smaller label (first maximum; the background count is zeroed). *)
+Theorem largest_cc_spec :
+  forall (mask : list bool) (labels : list nat) (nb : nat),
+  (nb = 0 -> largest_cc_sel mask labels nb = None) /\
+  (nb = 1 -> largest_cc_sel mask labels nb = Some mask) /\
+  (2 <= nb -> (exists l, In l labels /\ 1 <= l) ->
+     exists L, largest_cc_sel mask labels nb = Some (map (fun l => Nat.eqb l L) labels)
+       /\ 1 <= L /\ In L labels
+       /\ (forall k, 1 <= k -> count_label labels k <= count_label labels L)
+       /\ (forall k, 1 <= k -> k < L -> count_label labels k < count_label labels L)).
+Proof. exact largest_cc_spec_proof. Qed.
+Print Assumptions largest_cc_spec.
+
+(* (15) series_from_mask order: `series[mask]` keeps the time courses of the masked-in
+   voxels in row-major voxel order (k-th row = voxel with the k-th True of the flat mask). *)
+Theorem series_order_spec :
+  forall (A : Type) (d : A) (mask : list bool) (rows : list A),
+  length mask = length rows ->
+  series_sel mask rows
+  = map (fun p => nth p rows d) (filter (fun p => nth p mask false) (seq 0 (length rows))).
+Proof. intros A d mask rows H. now apply series_order_spec_proof. Qed.
+Print Assumptions series_order_spec.
+
+(* (16) PCA axis bookkeeping (pca.py: `data = np.rollaxis(data, axis)` ... `out =
+   np.rollaxis(out, 0, axis+1)`), every ndim and every axis k: entry (t :: v) of the rolled
+   data is the entry of `data` with t inserted at position k; the projections array of
+   shape (ncomp :: remaining extents) is returned with shape `s[axis] = ncomp`, and its
+   entry i is entry (i[k] :: i without position k) of the computed array - i.e. the roll
+   back inverts the roll in.  (The numerical PCA axis equivariance is an oracle on the
+   implementation.) *)
+Theorem pca_axis_bookkeeping :
+  forall (A B : Type) (data : nda A) (out : nda B) (k ncomp : nat),
+  k < length (shp data) ->
+  shp out = ncomp :: remove_at k (shp data) ->
+  (forall t v, at_ (rollaxis data k 0) (t :: v) = at_ data (insert_at k t v)) /\
+  shp (rollaxis data k 0) = nth k (shp data) 0 :: remove_at k (shp data) /\
+  shp (rollaxis out 0 (S k)) = insert_at k ncomp (remove_at k (shp data)) /\
+  (forall i, k < length i -> at_ (rollaxis out 0 (S k)) i = at_ out (nth k i 0 :: remove_at k i)) /\
+  (forall i, k < length i ->
+     insert_at k (nth k i 0) (remove_at k i) = i).
+Proof.
+  intros A B data out k ncomp Hk Hout. repeat split.
+  - intros t v. unfold rollaxis. change (Nat.ltb k 0) with false. cbn match.
+    destruct k as [|k]; [reflexivity|]. change (Nat.eqb (S k) 0) with false. cbn match. reflexivity.
+  - unfold rollaxis. change (Nat.ltb k 0) with false. cbn match.
+    destruct k as [|k].
+    + change (Nat.eqb 0 0) with true. cbn match. destruct (shp data) as [|x l]; [simpl in Hk; lia|reflexivity].
+    + change (Nat.eqb (S k) 0) with false. cbn match. reflexivity.
+  - now apply rollback_shape.
+  - intros i Hi. now apply rollback_at.
+  - intros i Hi. now apply insert_remove_nth.
+Qed.
+Print Assumptions pca_axis_bookkeeping.
